@@ -613,35 +613,39 @@ pub fn main_with(property: &str, build: impl FnOnce(&mut Registry, Tier)) {
             if k.kind != "finding" {
                 continue;
             }
-            let subj_name = k.subject.trim_end_matches('*').to_string();
-            let found = reg.subjects.iter().find(|s| s.name() == k.subject || (k.subject.ends_with('*') && s.name().starts_with(&subj_name)));
-            match found {
-                None => {
-                    k.active = false;
-                    k.replay_detail = "subject not registered in this binary".into();
-                }
-                Some(s) => match s.replay(&mut ctx, &k.witness) {
+            let candidates: Vec<&Box<dyn Subject>> = reg.subjects.iter().filter(|s| subject_matches(&k.subject, &s.name())).collect();
+            if candidates.is_empty() {
+                k.active = false;
+                k.replay_detail = "subject not registered in this binary".into();
+                continue;
+            }
+            // a finding with a subject glob is active iff its witness still fails (same clause) on at least one matching subject
+            k.active = false;
+            for s in candidates {
+                match s.replay(&mut ctx, &k.witness) {
                     Verdict::Fail(f) => {
-                        if f.clause == k.clause {
+                        if f.clause == k.clause && (k.covers != "class" || k.class.is_empty() || k.class == f.class) {
                             k.active = true;
-                            k.replay_detail = truncate(&f.detail, 300);
+                            k.replay_detail = format!("{}: {}", s.name(), truncate(&f.detail, 300));
                             if k.covers == "class" && k.class.is_empty() {
                                 k.class = f.class.clone();
                             }
+                            break;
                         } else {
-                            k.active = false;
-                            k.replay_detail = format!("witness now fails a different clause: {} ({})", f.clause, truncate(&f.detail, 200));
+                            k.replay_detail = format!("{}: witness now fails differently: {}/{} ({})", s.name(), f.clause, f.class, truncate(&f.detail, 200));
                         }
                     }
                     Verdict::Pass => {
-                        k.active = false;
-                        k.replay_detail = "witness no longer fails".into();
+                        if k.replay_detail.is_empty() {
+                            k.replay_detail = "witness no longer fails".into();
+                        }
                     }
                     Verdict::Unreplayable(m) => {
-                        k.active = false;
-                        k.replay_detail = format!("unreplayable: {m}");
+                        if k.replay_detail.is_empty() {
+                            k.replay_detail = format!("unreplayable: {m}");
+                        }
                     }
-                },
+                }
             }
         }
         ctx.known = known;
